@@ -152,8 +152,9 @@ def gen_case(rng, maxL):
     elif gk == 'tails': g = [rng.choice([-50, 50, -20, 20, rng.gauss(0, 5)]) for _ in r]
     elif gk == 'zero': g = [0.0 for _ in r]
     else: g = [rng.gauss(0, 1e-3) for _ in r]
-    uk = rng.choice(['random', 'hardcore', 'lj', 'zero', 'tiny'])
-    if uk == 'random': u = [rng.gauss(0, 2) for _ in r]
+    uk = rng.choice(['random', 'hardcore', 'lj', 'zero', 'tiny', 'deepwell'])
+    if uk == 'deepwell': u = [rng.choice([-800.0, -1000.0, -750.0]) if x <= sigma else rng.gauss(0, 0.5) for x in r]      # exp(-u) overflows inside the core only
+    elif uk == 'random': u = [rng.gauss(0, 2) for _ in r]
     elif uk == 'hardcore': u = [1e6 / rng.choice([0.5, 1.0, 2.0]) if x <= sigma else rng.gauss(0, 0.3) for x in r]
     elif uk == 'lj': u = [min(4 * ((1.0 / x) ** 12 - (1.0 / x) ** 6), 1e30) for x in r]
     elif uk == 'zero': u = [0.0 for _ in r]
